@@ -164,14 +164,14 @@ def mixedZeros : F32 → F32 → Bool
 /-- Rust `f32::max`: a NaN operand yields the other operand.  For `max(+0, -0)` Rust leaves the
 sign of the result unspecified; the compiled crate on the host returns `+0` in either order
 (probed by `dump-consts`, exercised by the correspondence streams), and so does the model. -/
-def max (a b : F32) : F32 :=
+def fmax (a b : F32) : F32 :=
   match a, b with
   | .nan, y => y
   | x, .nan => x
   | x, y => if mixedZeros x y then zero else if lt x y then y else x
 
-/-- Rust `f32::min`, same conventions as `max` (mixed zeros give `+0` on the host). -/
-def min (a b : F32) : F32 :=
+/-- Rust `f32::min`, same conventions as `fmax` (mixed zeros give `+0` on the host). -/
+def fmin (a b : F32) : F32 :=
   match a, b with
   | .nan, y => y
   | x, .nan => x
